@@ -56,7 +56,7 @@ package trafficrouting
 
 //@ func (*Manager).DoTrafficRouting
 //@ props C03
-//@ requires m != nil && m.Client != nil && c != nil
+//@ requires m != nil && c != nil
 //@ ensures done_has_no_error: result0 ==> result1 == nil
 //@ ensures routed_means_provider_verified: result0 && old(len(c.ObjectRef)) > 0 && old(stepRoutes(c)) ==> #ensureRoutes == 1 && #ensureRoutes.ret0 && #ensureRoutes.ret1 == nil && #ensureRoutes.arg2 == &c.Strategy
 //@ ensures routed_means_no_service_write_in_this_call: result0 ==> #Patch == 0 && #Create == 0 && #Update == 0 && #Delete == 0 && #createCanarySvc == 0
